@@ -629,6 +629,30 @@ func universe(thorough bool) []Case {
 		add([]pp{{"unsharded", "text"}}, -1, 33, MiB, "16 MiB threshold, three chunks")
 		add([]pp{{"unsharded", "text"}}, 3, 4, 9*MiB, "row limit across 16 MiB chunks")
 	}
+	// (4) the row limit and the 16 MiB threshold coincide: the row that takes the buffered
+	// chunk above the threshold is the limit-th, (limit+1)-th or (limit+2)-th row of the
+	// result (uniform rows of 16 MiB/k + 64 KiB cross at row k), and "tiny rows + one 17 MiB
+	// row" where the big row is the (limit+1)-th
+	co := []pp{{"unsharded", "text"}, {"shard1", "text"}}
+	if thorough {
+		co = all
+	}
+	for _, limit := range []int{1, 3} {
+		for _, k := range []int{limit, limit + 1, limit + 2} {
+			rows := limit + 1
+			if k > rows {
+				rows = k
+			}
+			for _, x := range co {
+				cs = append(cs, Case{Limit: limit, Path: x.path, Proto: x.proto, R: rows, S: 16*MiB/k + 64*1024,
+					Note: fmt.Sprintf("limit x threshold: row %d crosses 16 MiB", k)})
+			}
+		}
+		for _, x := range co {
+			cs = append(cs, Case{Limit: limit, Path: x.path, Proto: x.proto, R: limit + 1, S: 8, Last: 17 * MiB,
+				Note: "limit x threshold: tiny rows, then one 17 MiB row as row limit+1"})
+		}
+	}
 	return cs
 }
 
@@ -678,7 +702,7 @@ func main() {
 		}
 	}
 	g.close()
-	r.Set("rule", "cases = {limit 1,3: R in limit-1..limit+1; unlimited: R in 0,1,4,10001} x S in {1B,1KiB}  +  unlimited: (R,S) with R*payload(S) just below / just above / one row above the 16 MiB-1 streaming threshold and 33 MiB (quick: 17 x 1 MiB)  +  limit 3 with 9 MiB rows; each x path {unsharded, sharded 1 table, sharded 2 slices, sharded 2 tables on one slice} x protocol {COM_QUERY, COM_STMT_EXECUTE}; each case is followed by a 1-row probe statement on the same path. A case is non-trivial when its observed outcome is not 'one physical statement, one chunk, delivered completely' (i.e. the result was streamed in several chunks, merged from two physical statements, refused by the row limit, or violated the oracle); distinct = distinct (path, protocol, limit class, size class, statements, outcome)")
+	r.Set("rule", "cases = {limit 1,3: R in limit-1..limit+1; unlimited: R in 0,1,4,10001} x S in {1B,1KiB}  +  unlimited: (R,S) with R*payload(S) just below / just above / one row above the 16 MiB-1 streaming threshold and 33 MiB (quick: 17 x 1 MiB)  +  limit 3 with 9 MiB rows; +  limit {1,3} x 'the row crossing 16 MiB is row limit / limit+1 / limit+2' (uniform rows of 16 MiB/k+64 KiB) and 'limit tiny rows then one 17 MiB row' (quick: unsharded and sharded-one-table, text); each x path {unsharded, sharded 1 table, sharded 2 slices, sharded 2 tables on one slice} x protocol {COM_QUERY, COM_STMT_EXECUTE}; each case is followed by a 1-row probe statement on the same path. A case is non-trivial when its observed outcome is not 'one physical statement, one chunk, delivered completely' (i.e. the result was streamed in several chunks, merged from two physical statements, refused by the row limit, or violated the oracle); distinct = distinct (path, protocol, limit class, size class, statements, outcome)")
 	r.Set("outcome_histogram", outcomes)
 	r.Assume("fakemysql produces exactly the rows it is asked for (R rows of S bytes per physical statement, CRC-32 per row recomputed from (tag, table, row index)); framing of the fake and of the client is written from the protocol description")
 	r.Assume("a closed connection or an ERR packet (also after some rows) counts as 'the client receives an error'")
